@@ -25,7 +25,15 @@ parent's events; an exception is only accepted if the parent container refuses t
 too (h5py rejects unsorted lists).  12 % of the histories run on scalar-only roots with 300–70000
 events and narrow windows far from index 0 (small members with root indices >= 256 / >= 65536;
 property oracle only, the Lean model is not run on them).
-Scripted scenarios: fixed access-pattern list on a dict and an hdf5 root, error paths of unsynchronised hierarchies (`apply_manual_indices` must refuse
+Lazily filled caches (session 4, Model/HierCache.lean): 16 % of the operations of the small-root
+histories are `np.asarray(L[f][:])` / `L[f].min()|max()|mean()` on two scalar features that nothing
+else reads (`userdef1` = root index, `verif_tmp2` = a temporary feature assigned on the root only),
+re-assignments of `verif_tmp2` on the root and changes of `root.config["calculation"]`, at any
+member and at any time — also on members below a partial refresh; every answer is compared with
+the model (`read` / `summ` / `calc` lines), and on a synchronised hierarchy with the property's own
+oracle (root data at the member's events, numpy fold).  Every history ends with reads and summaries
+of both features at every member.
+Scripted scenarios: stale-member witness (`stale_member_mixed_witness`), fixed access-pattern list on a dict and an hdf5 root, error paths of unsynchronised hierarchies (`apply_manual_indices` must refuse
 on members below a partial refresh), the F32 history, and the corpus.
 """
 import json
@@ -47,6 +55,9 @@ RULE = ("seeded histories of 10-80 operations over {set range at any level (50% 
         "lists and arrays) on sampled feature kinds of every checked member; a history is "
         "non-trivial when at least one rejuvenate saw an ancestor change that kept the parent's "
         "boolean pattern of some deeper member or re-created a filter with hidden manual ids; "
+        "16% of the operations (small roots): lazy array read / min / max / mean of two otherwise "
+        "unread scalar features at any member (also stale ones), root data re-assignment, root "
+        "calculation-section change; every history ends with reads + summaries at every member; "
         "distinct = distinct canonical (root, depth, op list).")
 TRUSTED_BASE = [
     "modelled, not verified: numpy boolean/integer indexing, np.where, np.isin, sorted(set()), "
@@ -54,7 +65,13 @@ TRUSTED_BASE = [
     "Filter.update is reduced to box ranges on integer-valued features + manual (polygon, "
     "invalid, limit events: C03/C16)",
     "feature payloads are opaque tokens (harness/gen.py); the identity feature userdef0 carries "
-    "the root index"]
+    "the root index",
+    "cache layer (Model/HierCache.lean): NaN-free integer-valued scalar features; the root's "
+    "features are read without cache; numpy's IndexError for a boolean index of another length "
+    "(reads through two stale levels) is the driver's guard `readOk`, `sel` itself truncates — "
+    "after a refresh from the youngest member the lengths agree (synced_after_rejuvenate), this "
+    "composition is not a Lean theorem; after such a refused read the history re-synchronises "
+    "with a refresh from the youngest member"]
 ASSUMPTIONS = [
     "set_temporary_feature is only called on members that are not stale themselves (assigning "
     "data through a member whose ancestors were refreshed without it is a usage error: its "
@@ -62,13 +79,28 @@ ASSUMPTIONS = [
     "while a member is stale (an ancestor was refreshed without it) 'the event at position p' "
     "means the event its cached identity feature shows; its n-d features and len() are not read",
     "ranges are set as min/max pairs and never removed (removal is F03, property C03)",
-    "'limit events' = 0 inside the hierarchy so that root ids determine the filters"]
+    "'limit events' = 0 inside the hierarchy so that root ids determine the filters",
+    "the cache-modelled scalar features carry no box filter (Filter.update would read them "
+    "during the refresh itself); `_length` of a member is cached by its first refresh after the "
+    "constructor (the constructor leaves it lazy)"]
 NOT_PROVED = [
-    "polygon / invalid / limit-events filters inside a hierarchy (reduced to C03)",
-    "feature data read from a stale member (below a partial refresh) before its own refresh",
-    "ChildScalar ufunc caches (min/max/mean), config['calculation'] propagation"]
+    "polygon / invalid / limit-events filters inside a hierarchy (reduced to C03; the C03 filter "
+    "spec is not composed into the hierarchy model)",
+    "stale members (below a partial refresh): proved are read_is_frozen and the witness "
+    "stale_member_mixed_witness (features frozen at first read / current / old len); a general "
+    "'frozen until the member's own refresh' theorem over arbitrary op sequences and n-d reads of "
+    "stale members are correspondence-only",
+    "cache layer: length agreement of every boolean selection after a refresh is taken from the "
+    "base model's Synced invariant, not re-proved for the lazily read chain; NaN handling of "
+    "nanmin/nanmax/nanmean; H5ScalarEvent summaries of an HDF5 root (trusted)"]
 
 TMP = "verif_tmp"
+# cache-modelled scalar features (Model/HierCache.lean): never box-filtered, never read by the
+# per-refresh oracle, only by explicit `read` / `summ` operations, so they are read *lazily*
+LAZY = "userdef1"            # slot 0: identity (root index), immutable
+TMP2 = "verif_tmp2"          # slot 1: temporary feature that is only ever assigned on the root
+SLOTS = [LAZY, TMP2]
+CALC_KEY = "emodulus temperature"
 FILT = ["userdef0", "area_cvx", "bright_avg"]          # box-filterable, integer valued
 TOKF = ["deform", "image", "mask", "contour", "trace/fl1_raw", "trace/fl1_median"]
 UNIVERSE = list(range(48))
@@ -137,6 +169,8 @@ def open_root(ctx, spec):
     from dclab.rtdc_dataset import feat_temp
     if not dclab.definitions.feature_exists(TMP):
         feat_temp.register_temporary_feature(TMP)
+    if not dclab.definitions.feature_exists(TMP2):
+        feat_temp.register_temporary_feature(TMP2)
     if spec.get("big"):
         ds = dclab.new_dataset(big_columns(spec))
         ds.config["imaging"]["pixel size"] = 0.34
@@ -148,6 +182,7 @@ def open_root(ctx, spec):
              "mask": gen.rows("mask", toks), "contour": gen.rows("contour", toks),
              "trace": gen.trace_dict(("fl1_raw", "fl1_median"), toks),
              "userdef0": np.arange(n, dtype=float),
+             LAZY: np.arange(n, dtype=float),
              "area_cvx": np.array(spec["area_cvx"], dtype=float),
              "bright_avg": np.array(spec["bright_avg"], dtype=float)}
         ds = dclab.new_dataset(d)
@@ -162,11 +197,17 @@ def open_root(ctx, spec):
                           trace_names=("fl1_raw", "fl1_median"))
             with dclab.RTDCWriter(path, mode="append") as hw:
                 hw.store_feature("userdef0", np.arange(n, dtype=float))
+                hw.store_feature(LAZY, np.arange(n, dtype=float))
                 hw.store_feature("area_cvx", np.array(spec["area_cvx"], dtype=float))
                 hw.store_feature("bright_avg", np.array(spec["bright_avg"], dtype=float))
         ds = dclab.new_dataset(path)
     feat_temp.set_temporary_feature(ds, TMP, np.arange(n, dtype=float) * 0.5 + 100)
+    feat_temp.set_temporary_feature(ds, TMP2, tmp2_initial(n))
     return ds
+
+
+def tmp2_initial(n):
+    return (np.arange(n, dtype=float) * 3) % 7
 
 
 def index_patterns(rng, n, k):
@@ -280,6 +321,36 @@ def access_patterns(L, P, i, rng, k, big, patterns=None, all_feats=False):
     return bad
 
 
+def man_root(flt):
+    """the private bookkeeping list `HierarchyFilter._man_root_ids` as a sorted list of root ids,
+    or None when this dclab keeps it under another name / in another form (then the model's
+    `mr=` field is not compared; hidden exclusions are still judged through observable behaviour:
+    `excluded == M ∩ visible` when the events return)"""
+    if not hasattr(flt, "_man_root_ids"):
+        # a plain `Filter` (root) has no such bookkeeping at all: empty
+        return None if hasattr(flt, "retrieve_manual_indices") else []
+    try:
+        return sorted({int(x) for x in flt._man_root_ids})
+    except Exception:
+        return None
+
+
+def drop_mr(state):
+    """a state line without its `mr=` field"""
+    return " ".join(w for w in state.split(" ") if not w.startswith("mr="))
+
+
+def sort_mr(state):
+    """a state line with the ids of its `mr=` field sorted (the order of a private list is not
+    observable)"""
+    out = []
+    for w in state.split(" "):
+        if w.startswith("mr=") and w[3:]:
+            w = "mr=" + ",".join(map(str, sorted({int(x) for x in w[3:].split(",")})))
+        out.append(w)
+    return " ".join(out)
+
+
 class Real:
     """the real hierarchy + the harness' root-id bookkeeping of the user's manual edits"""
 
@@ -291,6 +362,9 @@ class Real:
             self.lv.append(RTDC_Hierarchy(self.lv[-1]))
         self.M = [set() for _ in self.lv]
         self.last_tmp = None
+        self.synced = True           # no edit since the last refresh from the youngest member
+        self.col2 = None if spec.get("big") else [int(v) for v in tmp2_initial(spec["n"])]
+        self.lazy_fail = []          # property oracle on lazily read features / summaries
 
     def close(self):
         try:
@@ -341,6 +415,13 @@ class Real:
                     self.last_tmp = (lvl, dict(zip(old_ids, data)))
             elif op[0] == "pix":
                 self.lv[0].config["imaging"]["pixel size"] = op[1]
+            elif op[0] == "col":
+                feat_temp.set_temporary_feature(self.lv[0], TMP2, np.array(op[1], dtype=float))
+                self.col2 = [int(v) for v in op[1]]
+            elif op[0] == "calc":
+                self.lv[0].config["calculation"][CALC_KEY] = float(op[1])
+            elif op[0] in ("read", "summ"):
+                return self.lazy(op)
             else:
                 raise HErr(f"unknown op {op}")
         except hfilter.HierarchyFilterError:
@@ -349,17 +430,76 @@ class Real:
             raise
         except Exception as e:
             return common.err_class(e)
+        finally:
+            if op[0] not in ("read", "summ"):
+                self.synced = op[0] == "rejuv"
         return "ok"
+
+    def lazy(self, op):
+        """`np.asarray(L[f][:])` / `L[f].min()|max()|mean()` on a cache-modelled scalar feature;
+        canonical answer (protocol of Drive/C04.lean).  When the hierarchy is synchronised (no
+        edit since the last refresh from the youngest member) the property's own oracle applies:
+        the data are the root's current data at the member's events, the summary is the fold."""
+        import warnings
+        lvl, slot = op[1], op[2]
+        L = self.lv[lvl]
+        try:
+            with warnings.catch_warnings():
+                warnings.simplefilter("ignore")
+                if op[0] == "read":
+                    val = np.asarray(L[SLOTS[slot]][:], dtype=float)
+                    ans = ",".join(str(int(v)) if v == int(v) else repr(float(v)) for v in val)
+                else:
+                    u = op[3]
+                    c = L[SLOTS[slot]]
+                    r = float([c.min, c.max, c.mean][u]())
+                    if u < 2:
+                        ans = str(int(r)) if r == int(r) else repr(r)
+                    else:
+                        # (the array is cached by now; `len(c)` would be the member's possibly
+                        # stale `_length`)
+                        n = len(np.asarray(c[:]))
+                        sm = int(round(r * n)) if n and r == r else 0
+                        ans = "nan" if r != r else f"{sm}/{n}" if sm / n == r else repr(r)
+        except Exception as e:
+            ans = common.err_class(e)
+        if self.synced:
+            try:
+                rootcol = np.arange(self.spec["n"]) if slot == 0 else np.array(self.col2)
+                want = rootcol[np.array(self.ids(lvl), dtype=int)].astype(float)
+                with warnings.catch_warnings():
+                    warnings.simplefilter("ignore")
+                    if op[0] == "read":
+                        exp = ",".join(str(int(v)) for v in want)
+                    elif op[3] < 2:
+                        exp = str(int([np.min, np.max][op[3]](want))) if len(want) else "err:value"
+                    else:
+                        exp = f"{int(want.sum())}/{len(want)}" if len(want) else "nan"
+                if exp != ans:
+                    what = "data" if op[0] == "read" else ["min()", "max()", "mean()"][op[3]]
+                    self.lazy_fail.append(
+                        f"L{lvl}: {what} of scalar {SLOTS[slot]} after a refresh is {ans[:40]}, "
+                        f"the root's data at the member's events give {exp[:40]}")
+            except Exception as e:
+                self.lazy_fail.append(f"L{lvl}: reading the refreshed level raised "
+                                      f"{type(e).__name__}")
+        return ans
+
+    def calc_token(self, i):
+        try:
+            return str(int(float(self.lv[i].config["calculation"].get(CALC_KEY, 0))))
+        except Exception as e:
+            return common.err_class(e)
 
     # -------------------------------------------------------------------- observations
     def canon(self, i):
         L = self.lv[i]
         bits = lambda a: "".join("1" if x else "0" for x in np.asarray(a))  # noqa: E731
-        mr = [int(x) for x in getattr(L.filter, "_man_root_ids", [])]
+        mr = man_root(L.filter)
         pc = int(bool(L.filter.parent_changed)) if i > 0 else 0
         return "len=%d ids=%s all=%s man=%s mr=%s pc=%d" % (
             len(L), ",".join(map(str, self.ids(i))), bits(L.filter.all), bits(L.filter.manual),
-            ",".join(map(str, mr)), pc)
+            "?" if mr is None else ",".join(map(str, mr)), pc)
 
     def tokens(self, i, rng, full):
         """{feature: [(position, token)]} of level i (n-d kinds sampled unless `full`)"""
@@ -490,6 +630,22 @@ def gen_history(rng, spec, depth, real, nops):
         yield ("rejuv",)
     for _ in range(nops):
         x = rng.random()
+        if not big and rng.random() < 0.16:
+            # lazily read scalar features / summaries at any member at any time (also on members
+            # below a partial refresh), root data and root calculation-section changes
+            y = rng.random()
+            if y < 0.45:
+                op = ("read", rng.randrange(0, depth + 1), rng.randrange(2))
+            elif y < 0.80:
+                op = ("summ", rng.randrange(0, depth + 1), rng.randrange(2), rng.randrange(3))
+            elif y < 0.92:
+                op = ("col", [rng.randint(-5, 20) for _ in range(n)])
+            else:
+                op = ("calc", rng.randint(1, 60))
+            since += 1
+            last = op
+            yield op
+            continue
         if partial and since > 0 and rng.random() < 0.10:
             # refresh an intermediate member only; usually followed by more edits and, at the
             # latest after a few operations, by a refresh from the youngest member
@@ -551,6 +707,14 @@ def gen_history(rng, spec, depth, real, nops):
         yield op
     if last is not None and last[0] != "rejuv":
         yield ("rejuv",)
+    if not big:
+        # synchronised hierarchy: every member, both cache-modelled features, some summaries
+        for lvl in range(depth + 1):
+            for slot in (0, 1):
+                if rng.random() < 0.5:
+                    yield ("summ", lvl, slot, rng.randrange(3))
+                yield ("read", lvl, slot)
+                yield ("summ", lvl, slot, rng.randrange(3))
 
 
 def tmp_level(op, depth):
@@ -574,6 +738,14 @@ def op_line(op, depth):
         return "set %d %d %d %d" % op[1:]
     if op[0] == "man":
         return "man %d %d %d" % op[1:]
+    if op[0] == "read":
+        return "read %d %d" % op[1:]
+    if op[0] == "summ":
+        return "summ %d %d %d" % op[1:]
+    if op[0] == "col":
+        return "setcol 1 " + " ".join(str(int(v)) for v in op[1])
+    if op[0] == "calc":
+        return "setcalc %d" % op[1]
     k = refresh_level(op, depth)
     if k is not None:
         return "rejuv" if k == depth else f"rejuvat {k}"
@@ -593,24 +765,31 @@ def execute(ctx, spec, depth, ops, rng, lines=None, expect=None, full_last=True,
             for col in (list(range(spec["n"])), spec["area_cvx"], spec["bright_avg"]):
                 lines.append("feat " + " ".join(str(v) for v in col))
                 expect.append(("ok", None))
+            for col in (list(range(spec["n"])), real.col2):
+                lines.append("col " + " ".join(str(v) for v in col))
+                expect.append(("ok", None))
             lines.append("init")
             expect.append(("ok", None))
         it = ops(real) if callable(ops) else iter(ops)
         done = []
         pending = list(it) if not callable(ops) else None
         k = 0
+        forced = []
         try:
             while True:
-                if pending is not None:
+                if forced:
+                    op = forced.pop()
+                elif pending is not None:
                     if k >= len(pending):
                         break
                     op = pending[k]
+                    k += 1
                 else:
                     try:
                         op = next(it)
                     except StopIteration:
                         break
-                k += 1
+                    k += 1
                 done.append(op)
                 rl = refresh_level(op, depth)
                 refresh = rl is not None
@@ -618,8 +797,20 @@ def execute(ctx, spec, depth, ops, rng, lines=None, expect=None, full_last=True,
                     before = [(np.asarray(L.filter.all).copy(), real.ids(i))
                               for i, L in enumerate(real.lv)]
                 ans = real.apply(op)
-                if ans != "ok":
+                if ans.startswith("err"):
                     info["errs"] += 1
+                if op[0] in ("read", "summ"):
+                    info["lazy"] = info.get("lazy", 0) + 1
+                    if not real.synced:
+                        info["lazy_stale"] = info.get("lazy_stale", 0) + 1
+                    if ans == "err:index" and pending is None:
+                        # numpy refused a stale member (lengths differ): the caches above the
+                        # failure are half filled; re-synchronise before going on
+                        info["lazy_index_error"] = info.get("lazy_index_error", 0) + 1
+                        forced.append(("rejuv",))
+                    if real.lazy_fail:
+                        fails.extend(real.lazy_fail)
+                        break
                 ln = op_line(op, depth)
                 if lines is not None and ln is not None:
                     lines.append(ln)
@@ -643,10 +834,12 @@ def execute(ctx, spec, depth, ops, rng, lines=None, expect=None, full_last=True,
                         if (pa_old.shape == pa_new.shape and (pa_old == pa_new).all()
                                 and ids_old != real.ids(i)):
                             info["f04_trigger"] = True
-                        mr = set(int(x) for x in real.lv[i].filter._man_root_ids)
-                        if mr - set(real.ids(i)):
+                        if real.M[i] - set(real.ids(i)):      # excluded events that are hidden
                             info["hidden"] = True
                     if lines is not None:
+                        for i in range(rl + 1):
+                            lines.append(f"calc {i}")
+                            expect.append((real.calc_token(i), ("calc", i, len(done) - 1)))
                         for i in range(depth + 1):
                             lines.append(f"state {i}")
                             expect.append((real.canon(i), ("state", i, len(done) - 1, i <= rl)))
@@ -680,7 +873,8 @@ def drop_level(ops, depth, j):
     """remove hierarchy level j (1 ≤ j ≤ depth) from a history"""
     out = []
     for op in ops:
-        if op[0] in ("set", "man", "rejuvat") or (op[0] == "tmp" and isinstance(op[1], int)):
+        if op[0] in ("set", "man", "rejuvat", "read", "summ") \
+                or (op[0] == "tmp" and isinstance(op[1], int)):
             lvl = op[1]
             if lvl == j:
                 continue
@@ -738,6 +932,14 @@ def script(spec, depth, ops):
                      f"cycle({op[2]}))")
         elif op[0] == "pix":
             s.append(f"L[0].config['imaging']['pixel size'] = {op[1]}")
+        elif op[0] == "col":
+            s.append(f"set_temporary_feature(L[0], '{TMP2}', {list(op[1])})")
+        elif op[0] == "calc":
+            s.append(f"L[0].config['calculation']['{CALC_KEY}'] = {float(op[1])}")
+        elif op[0] == "read":
+            s.append(f"np.asarray(L[{op[1]}]['{SLOTS[op[2]]}'][:])")
+        elif op[0] == "summ":
+            s.append(f"L[{op[1]}]['{SLOTS[op[2]]}'].{['min', 'max', 'mean'][op[3]]}()")
     return s
 
 
@@ -779,13 +981,14 @@ def _error_paths(ctx):
         got.append("err:hierarchy")
     except Exception as e:
         got.append(common.err_class(e))
-    before = list(c1.filter._man_root_ids)
-    c1.filter.retrieve_manual_indices(c1)     # must not be confused by the changed parent
-    got.append("kept" if list(c1.filter._man_root_ids) == before else "changed")
+    # (public return value; nothing was excluded, so the list of excluded root events is empty)
+    r1 = c1.filter.retrieve_manual_indices(c1)     # must not be confused by the changed parent
+    got.append("kept" if [int(x) for x in r1] == [] else "changed")
     c2.rejuvenate()
     try:
         c1.filter.apply_manual_indices(c1, [1])
-        got.append("ok" if not c1.filter.manual[0] and c1.filter._man_root_ids == [1] else "wrong")
+        r2 = [int(x) for x in c1.filter.retrieve_manual_indices(c1)]
+        got.append("ok" if not c1.filter.manual[0] and r2 == [1] else "wrong")
     except BaseException as e:
         got.append(common.err_class(e))
     # a member two levels below a partial refresh must know that its parent changed
@@ -899,11 +1102,47 @@ def intermediate_refresh(ctx):
                        "part": "intermediate_refresh"})
 
 
+def stale_mixed(ctx):
+    """Properties/C04.lean `stale_member_mixed_witness` (history hx0) replayed on dclab: a member
+    below a partial refresh shows a feature it read before frozen, a feature it reads for the first
+    time through the refreshed parent, and its old length"""
+    from dclab.rtdc_dataset import RTDC_Hierarchy, feat_temp
+    try:
+        spec = {"kind": "dict", "n": 12, "tokens": list(range(12)),
+                "area_cvx": [i % 5 for i in range(12)], "bright_avg": [0] * 12}
+        root = open_root(ctx, spec)
+        feat_temp.set_temporary_feature(root, TMP2, np.arange(12, dtype=float))
+        c1 = RTDC_Hierarchy(root)
+        c2 = RTDC_Hierarchy(c1)
+        first = [int(v) for v in c2[LAZY][:]]
+        len(c2)        # (`_length` is lazy after the constructor, cached after any later refresh)
+        root.config["filtering"]["userdef0 min"] = 2.0
+        root.config["filtering"]["userdef0 max"] = 7.0
+        c1.rejuvenate()
+        got = (first, [int(v) for v in c2[LAZY][:]], [int(v) for v in c2[TMP2][:]], int(len(c2)))
+        c2.rejuvenate()
+        after = ([int(v) for v in c2[LAZY][:]], [int(v) for v in c2[TMP2][:]], int(len(c2)))
+    except Exception as e:
+        ctx.violation("spec", f"stale-member scenario raised {type(e).__name__}",
+                      {"part": "stale_mixed"})
+        return
+    ctx.stat("stale_member_witness_replays")
+    if after != ([2, 3, 4, 5, 6, 7], [2, 3, 4, 5, 6, 7], 6):
+        ctx.violation("spec", f"after its own refresh the member shows {after}, expected root "
+                              f"events 2..7 in both features", {"part": "stale_mixed"})
+    elif got != (list(range(12)), list(range(12)), [2, 3, 4, 5, 6, 7], 12):
+        ctx.violation("mirror", f"stale member below a partial refresh shows {got}; the model "
+                                f"(stale_member_mixed_witness) says frozen 0..11 / current 2..7 / "
+                                f"len 12", {"correspondence": "Model/HierCache.lean readArr vs "
+                                            "ChildScalar.__array__", "part": "stale_mixed"})
+
+
 def norm_ops(ops):
     out = []
     for o in ops:
         o = tuple(o)
-        out.append((o[0], o[1], list(o[2])) if o[0] == "tmp" else o)
+        out.append((o[0], o[1], list(o[2])) if o[0] == "tmp" else
+                   (o[0], list(o[1])) if o[0] == "col" else o)
     return out
 
 
@@ -935,6 +1174,7 @@ def run(ctx):
     error_paths(ctx)
     intermediate_refresh(ctx)
     access_scenario(ctx)
+    stale_mixed(ctx)
     for h in range(nhist):
         if time.time() - ctx.t0 > budget:
             ctx.stat("histories_skipped_for_time", nhist - h)
@@ -965,6 +1205,9 @@ def run(ctx):
         if info["partial"]:
             ctx.stat("histories_with_partial_refresh")
         ctx.stat("op_errors(err:index)", info["errs"])
+        ctx.stat("lazy_reads_and_summaries", info.get("lazy", 0))
+        ctx.stat("lazy_reads_on_unsynchronised_hierarchy", info.get("lazy_stale", 0))
+        ctx.stat("lazy_reads_refused_by_numpy(err:index)", info.get("lazy_index_error", 0))
         if info["f04_trigger"]:
             ctx.stat("histories_with_same_pattern_other_events")
         if info["hidden"]:
@@ -998,7 +1241,13 @@ def run(ctx):
                 if not tag[3]:
                     # stale member: `_length` may or may not be cached in dclab; not compared
                     model, want = model.split(" ", 1)[1], want.split(" ", 1)[1]
-                if model != want:
+                if "mr=?" in want.split(" "):
+                    # this dclab has no `_man_root_ids` attribute (private name): not compared
+                    ctx.note("HierarchyFilter._man_root_ids is absent: the model's private "
+                             "bookkeeping field `mr` is not compared (manual exclusions are "
+                             "judged through filter.manual / filter.all / feature data)")
+                    model, want = drop_mr(model), drop_mr(want)
+                if sort_mr(model) != want:
                     diffs.append((spec, depth, ops[:tag[2] + 1], lines[j], want, got))
                     break
                 fl = flags.split()
